@@ -122,7 +122,7 @@ def label_world(it, p, drivers, fr):
                 o.label = f"el:{dname}.{vn.v}.{n.v}"
 
 
-def build_drivers(it, p, names=(("DevA", "DEVA"), ("DevB", "DEVB")), router=None, src=None):
+def build_drivers(it, p, names=(("DevA", "DEVA"), ("DevB", "DEVB")), router=None, src=None, extra_classes=()):
     """-> {device name: driver Obj}.  Every object is produced by interpreting repository code."""
     import ast
     import hashlib
@@ -157,7 +157,7 @@ def build_drivers(it, p, names=(("DevA", "DEVA"), ("DevB", "DEVB")), router=None
     fr = Frame(None, mod, {})
     out = {}
     try:
-        classes = [drv] + [p.cls(f"{modname}.{c}") for c, _ in names]
+        classes = [drv] + [p.cls(f"{modname}.{c}") for c in extra_classes] + [p.cls(f"{modname}.{c}") for c, _ in names]
         for ci in classes:
             ns = Dct(label=f"{ci.name}.namespace")
             ns.set(Const("__module__"), Const(ci.module.name))
